@@ -27,7 +27,7 @@ RULE = (
     "user-supplied custom dependency context on the broker in half of the cases; in half of the cases one node is "
     "replaced through broker.dependency_overrides by another generated dependency; in half of the cases the task also takes "
     "an annotated argument (a pydantic model accepting the scalar short form '1,2', the same wire value in every message), mutates it and reads it "
-    "back after its suspension; in a third of the cases the task itself does not take the Context (only its dependencies do) while other messages go to a second task that does. Oracle: every echo made while "
+    "back after its suspension; in a third of the cases the task itself does not take the Context (only its dependencies do) while other messages go to a second task that does; in a third of the cases the messages carry no labels at all and the first execution writes one in place (Context.requeue). Oracle: every echo made while "
     "processing message i (attributed through a context variable set when its callback starts, inherited by every task it spawns) shows message i's id, argument "
     "and label; the result stored under id i is the value execution i returned. Non-trivial: >=2 executions overlap in "
     "virtual time and some Context-reading node is un-cached or below an un-cached node; distinct = canonical JSON."
@@ -60,6 +60,10 @@ def cases() -> Any:
         # plain task that does: whatever that one left behind must not reach the first
         "no_task_ctx": st.sampled_from([False, False, True]),
         "to_plain": st.lists(st.booleans(), min_size=4, max_size=4),
+        # messages without any label, and the first execution writes a label of its own in place (Context.requeue):
+        # the others must keep seeing their own (empty) labels
+        "no_labels": st.sampled_from([False, False, True]),
+        "requeue_first": st.sampled_from([False, True]),
     }).map(_sanitize))
 
 
@@ -102,6 +106,7 @@ def run_case(c: Dict[str, Any]) -> Outcome:
     asyncio.set_event_loop(loop)
     echoes: Dict[Any, List[Any]] = {}
     boxes: Dict[Any, List[Any]] = {}
+    seen_labels: Dict[Any, List[Any]] = {}
     cur: Dict[Any, int] = {}
     spans: Dict[int, List[float]] = {}
 
@@ -111,6 +116,8 @@ def run_case(c: Dict[str, Any]) -> Outcome:
             echoes.setdefault(k, []).append((node_, round(loop.time(), 6)) + payload)
         elif kind == "box":
             boxes.setdefault(k, []).append(payload[0])
+        elif kind == "labels":
+            seen_labels.setdefault(k, []).append(payload[0])
 
     res: Dict[str, Any] = {}
 
@@ -121,7 +128,8 @@ def run_case(c: Dict[str, Any]) -> Outcome:
         b.result_backend = rb
         if c.get("custom_ctx"):
             b.add_dependency_context({Marker: Marker()})
-        mod, task, src = dg.build(nodes, tdeps, {"kind": "ret", "replacements": c.get("overrides") or [], "box": c.get("box"), "no_task_ctx": c.get("no_task_ctx")}, LOG)
+        mod, task, src = dg.build(nodes, tdeps, {"kind": "ret", "replacements": c.get("overrides") or [], "box": c.get("box"), "no_task_ctx": c.get("no_task_ctx"),
+                                                       "requeue_first": c.get("requeue_first") and c.get("no_labels")}, LOG)
         for ri, rep in enumerate(c.get("overrides") or []):
             b.dependency_overrides[getattr(mod, f"n{rep['target']}")] = getattr(mod, f"r{ri}")
         b.register_task(task, task_name="t")
@@ -134,7 +142,8 @@ def run_case(c: Dict[str, Any]) -> Outcome:
             EXEC.set(k)
             plain = bool((c.get("to_plain") or [False] * 4)[k % 4]) and k > 0 and len(msgs) > 1 and c.get("no_task_ctx")
             kw = {"box": "1,2"} if c.get("box") and not plain else {}     # the same wire value in every message
-            m = b.formatter.dumps(AsyncKicker("plain" if plain else "t", b, {"who": f"w{k}"}).with_task_id(f"id{k}")._prepare_message(k, slp, **kw)).message
+            own_labels = {} if c.get("no_labels") else {"who": f"w{k}"}
+            m = b.formatter.dumps(AsyncKicker("plain" if plain else "t", b, own_labels).with_task_id(f"id{k}")._prepare_message(k, slp, **kw)).message
             spans[k] = [loop.time(), None]
             await r.callback(m)
             spans[k][1] = loop.time()
@@ -165,7 +174,7 @@ def run_case(c: Dict[str, Any]) -> Outcome:
         for (node_, t, tid, a0, who) in ev:
             if k is None:
                 out.add("C06.a", f"node {node_} ran outside any message's callback task")
-            elif (tid, a0, who) != (f"id{k}", k, f"w{k}"):
+            elif (tid, a0, who) != (f"id{k}", k, None if c.get("no_labels") else f"w{k}"):
                 out.add("C06.a", f"while processing message id{k} (arg {k}, label w{k}) at t={t}, node {node_} observed Context of "
                                  f"message {tid!r} (arg {a0!r}, label {who!r})")
     for k, seen_boxes in sorted(boxes.items(), key=lambda kv: str(kv[0])):
@@ -173,11 +182,18 @@ def run_case(c: Dict[str, Any]) -> Outcome:
             if bx != [1, 2, k]:
                 out.add("C06.a", f"execution of message id{k} appended its own id to its list argument (sent in the short form '1,2') and later "
                                  f"observed {bx}: the argument object is shared with another execution")
+    for k, ls in sorted(seen_labels.items(), key=lambda kv: str(kv[0])):
+        want = {} if c.get("no_labels") else {"who": f"w{k}"}
+        for got in ls:
+            if got != want:
+                out.add("C06.a", f"execution of message id{k} (sent with labels {want}) observed labels {got} through its Context")
     stored: Dict[str, List[Any]] = {}
     for tid, is_err, rv, en in res.get("results", []):
         stored.setdefault(tid, []).append((is_err, rv, en))
     for k in range(len(msgs)):
         got = stored.get(f"id{k}", [])
+        if k == 0 and c.get("requeue_first") and c.get("no_labels") and not c.get("no_task_ctx"):
+            continue      # the requeueing execution signals no-result
         if len(got) != 1:
             out.add("C06.b", f"{len(got)} results stored under id{k}")
         elif got[0][0] or got[0][1] != k:
@@ -191,7 +207,7 @@ def run_case(c: Dict[str, Any]) -> Outcome:
             if not uc and (nodes[j]["ctx"] or any(nodes[d]["ctx"] for d in dg.descendants(nodes, j))):
                 risky = True
     out.nontrivial = bool(overlap and risky)
-    out.classes = [c_ for c_, f in (("overlap", overlap), ("uncached_ctx_reader", risky), ("custom_ctx", c.get("custom_ctx")), ("dependency_overrides", bool(c.get("overrides"))), ("context_only_via_dependencies", bool(c.get("no_task_ctx"))),
+    out.classes = [c_ for c_, f in (("overlap", overlap), ("uncached_ctx_reader", risky), ("custom_ctx", c.get("custom_ctx")), ("dependency_overrides", bool(c.get("overrides"))), ("context_only_via_dependencies", bool(c.get("no_task_ctx"))), ("label_less_messages", bool(c.get("no_labels"))),
                                     ("generator_style", any(nodes[i]["style"] in dg.YIELDING for i in reach))) if f]
     out.trace = {"echoes": {str(k): [list(e[:3]) for e in v[:6]] for k, v in echoes.items()}, "spans": {str(k): v for k, v in spans.items()}}
     return out
